@@ -354,6 +354,18 @@ func ruleSeqLocks(c *Ctx, r *Report) {
 			r.Bad("write-under-writeLock", "Conn.writeLock:"+k, "", "datagram write on the packet path without writeLock: records may be emitted out of allocation order: "+f)
 		}
 	}
+	// every allocation, on whatever path (packets, return-routability messages), happens with
+	// writeLock held: the lock that is kept until the datagram is written, so that numbers leave
+	// in the order they were drawn
+	res4 := c.mustHold("dtls.Conn.writeLock", 2, ins)
+	r.Sites += res4.Examined
+	if len(res4.Failures) == 0 {
+		r.OK("alloc-under-writeLock", "Conn.writeLock", "", fmt.Sprintf("all %d allocator call sites run with writeLock held; acquired by: %s", len(ins), strings.Join(res4.Holders, ", ")))
+	} else {
+		for k, f := range groupFailures(res4.Failures) {
+			r.Bad("alloc-under-writeLock", "Conn.writeLock:"+k, "", "a record number is drawn without writeLock held (the lock is taken only later, around the socket write): writers that queue in between draw higher numbers and emit first, so numbers of an epoch do not leave in increasing order: "+f)
+		}
+	}
 	// the allocation on the packet path is under writeLock as well (prepare is called from the locked writer)
 	prep := c.CallsToName("(*dtls.Conn).prepareRawPacketsTracked")
 	var pi []ssa.Instruction
